@@ -297,16 +297,78 @@ pub fn run(rep: &mut Report, driver: &str, workers: usize, thorough: bool, seed:
         });
     }
     cases.push(Case { op: "from:option".into(), arg: "(nonev)".into(), impl_out: enc_value(&Value::from(None::<Value>)), expect: Some("(none)".into()), tag: "from-option" });
+    // 6b. an element type of the caller's own that accepts MORE THAN ONE kind of Value (`Num`: Int or Float; `Opt`: Int or None):
+    //     "extracting a list or map succeeds exactly when every element converts" is about the element conversion, whatever
+    //     it accepts — mixed lists of convertible elements convert, and the error is the first non-convertible element's
+    {
+        #[derive(Clone, Debug, PartialEq)]
+        enum Num {
+            I(i128),
+            F(u64),
+            N,
+        }
+        impl TryFrom<Value> for Num {
+            type Error = reval::Error;
+            fn try_from(v: Value) -> Result<Self, Self::Error> {
+                match v {
+                    Value::Int(i) => Ok(Num::I(i)),
+                    Value::Float(f) => Ok(Num::F(f.to_bits())),
+                    Value::None => Ok(Num::N),
+                    other => i128::try_from(other).map(Num::I),
+                }
+            }
+        }
+        let show = |n: &Num| match n {
+            Num::I(i) => format!("(int {})", i),
+            Num::F(b) => format!("(float {:016x})", b),
+            Num::N => "(none)".to_string(),
+        };
+        let elems = [Value::Int(1), Value::Float(2.5), Value::None, Value::Int(-7), Value::Float(0.0), Value::String("x".into()), Value::Bool(true), Value::Vec(vec![])];
+        let convertible = |v: &Value| matches!(v, Value::Int(_) | Value::Float(_) | Value::None);
+        let mut lists: Vec<Vec<Value>> = vec![vec![]];
+        for a in &elems {
+            lists.push(vec![a.clone()]);
+            for b in &elems {
+                lists.push(vec![a.clone(), b.clone()]);
+                for c in elems.iter().take(6) {
+                    lists.push(vec![a.clone(), b.clone(), c.clone()]);
+                }
+            }
+        }
+        lists.push((0..40).map(|i| if i % 2 == 0 { Value::Int(i) } else { Value::Float(i as f64) }).collect());
+        lists.push((0..40).map(|i| if i == 33 { Value::String("x".into()) } else if i % 3 == 0 { Value::None } else { Value::Int(i) }).collect());
+        for xs in lists {
+            let expect = match xs.iter().find(|v| !convertible(v)) {
+                None => format!("(ok (vec{}))", xs.iter().map(|v| format!(" {}", show(&Num::try_from(v.clone()).unwrap()))).collect::<String>()),
+                Some(bad) => enc_err(&i128::try_from(bad.clone()).unwrap_err()),
+            };
+            let v = Value::Vec(xs.clone());
+            let got = guarded(|| ok_or_err(Vec::<Num>::try_from(v.clone()).map(|ys| format!("(vec{})", ys.iter().map(|y| format!(" {}", show(y))).collect::<String>()))));
+            cases.push(Case { op: "try:vec:custom".into(), arg: enc_value(&v), impl_out: got, expect: Some(expect), tag: "custom-elem" });
+            // the same elements as the values of a map (keys k0, k1, … in order)
+            let m: BTreeMap<String, Value> = xs.iter().enumerate().map(|(i, v)| (format!("k{:02}", i), v.clone())).collect();
+            let expect_m = match xs.iter().find(|v| !convertible(v)) {
+                None => format!("(ok (map{}))", m.iter().map(|(k, v)| format!(" ({} {})", hex(k), show(&Num::try_from(v.clone()).unwrap()))).collect::<String>()),
+                Some(bad) => enc_err(&i128::try_from(bad.clone()).unwrap_err()),
+            };
+            let mv = Value::Map(m);
+            let gotb = guarded(|| ok_or_err(BTreeMap::<String, Num>::try_from(mv.clone()).map(|ys| format!("(map{})", ys.iter().map(|(k, y)| format!(" ({} {})", hex(k), show(y))).collect::<String>()))));
+            cases.push(Case { op: "try:bmap:custom".into(), arg: enc_value(&mv), impl_out: gotb, expect: Some(expect_m.clone()), tag: "custom-elem" });
+            let goth = guarded(|| ok_or_err(HashMap::<String, Num>::try_from(mv.clone()).map(|ys| { let b: BTreeMap<_, _> = ys.into_iter().collect(); format!("(map{})", b.iter().map(|(k, y)| format!(" ({} {})", hex(k), show(y))).collect::<String>()) })));
+            // (a HashMap target visits the entries in the source's key order too: the source is a BTreeMap)
+            cases.push(Case { op: "try:hmap:custom".into(), arg: enc_value(&mv), impl_out: goth, expect: Some(expect_m), tag: "custom-elem" });
+        }
+    }
     // 7. scalar `From<T> for Value` and back through `TryFrom<Value> for T`: the original, bit for bit
     //    (the expected image is built with the variant constructor, never through the conversion under test)
     scalar_roundtrips(&mut cases, &mut rng, thorough);
 
     // model
-    let reqs: Vec<String> = cases.iter().map(|c| format!("conv\t{}\t{}", c.op.replace("hmap", "map"), c.arg)).collect();
+    let reqs: Vec<String> = cases.iter().map(|c| if c.tag == "custom-elem" { "conv\ttry:i128\t(int 0)".to_string() } else { format!("conv\t{}\t{}", c.op.replace("hmap", "map"), c.arg) }).collect();
     let replies = par_batch(driver, workers, &reqs);
     let mut sr = StreamReport::new(
         "conversions",
-        "TryFrom<Value> for each of the 10 integer types over every integer in [-70000, 70000] (8/16-bit targets), every width boundary +-2 and random i128; From->TryFrom round trips (all 8/16-bit values, boundaries for wider types incl. usize); every boundary-pool Value as the source of 25 extractions; lists/maps of length <= 3 (thorough 4) over 7 element kinds with a non-convertible element at each position (BTreeMap and HashMap targets); lists / maps of 25 / 100 / 1000 elements with no failing element or the first / a middle / the last one failing; f32 specials and random bit patterns; Option/Vec/Map into Value; From<T> -> TryFrom<Value> round trips of every scalar kind (f64 bit patterns, strings incl. &str, decimals at every scale, booleans, date-times and durations down to the nanosecond incl. the extremes) alone and inside Vec / BTreeMap / HashMap. Predicates on the real code: in range <=> Ok(same number) else NumericOverflow; wrong kind => UnexpectedValueType carrying the value; round trips return the original",
+        "TryFrom<Value> for each of the 10 integer types over every integer in [-70000, 70000] (8/16-bit targets), every width boundary +-2 and random i128; From->TryFrom round trips (all 8/16-bit values, boundaries for wider types incl. usize); every boundary-pool Value as the source of 25 extractions; lists/maps of length <= 3 (thorough 4) over 7 element kinds with a non-convertible element at each position (BTreeMap and HashMap targets); lists / maps of 25 / 100 / 1000 elements with no failing element or the first / a middle / the last one failing; lists and maps of <= 3 (and of 40) elements extracted into an element type of the caller's own that accepts Int, Float and None; f32 specials and random bit patterns; Option/Vec/Map into Value; From<T> -> TryFrom<Value> round trips of every scalar kind (f64 bit patterns, strings incl. &str, decimals at every scale, booleans, date-times and durations down to the nanosecond incl. the extremes) alone and inside Vec / BTreeMap / HashMap. Predicates on the real code: in range <=> Ok(same number) else NumericOverflow; wrong kind => UnexpectedValueType carrying the value; round trips return the original",
         false,
     );
     for (c, m) in cases.iter().zip(replies.iter()) {
@@ -320,7 +382,7 @@ pub fn run(rep: &mut Report, driver: &str, workers: usize, thorough: bool, seed:
             push("impl-violates-property", "no conversion panics", format!("C17 panic {}", c.op));
         } else if c.expect.as_ref().map(|e| e != &c.impl_out).unwrap_or(false) {
             push("impl-violates-property", &format!("the property prescribes {}", c.expect.as_ref().unwrap()), format!("C17 {} {}", c.tag, c.op));
-        } else if &c.impl_out != m {
+        } else if c.tag != "custom-elem" && &c.impl_out != m {
             push("impl-violates-property", "the conversion result must equal the model's (all-or-first-error, exact numbers)", format!("C17 model {} {}", c.tag, c.op));
         }
     }
